@@ -775,7 +775,7 @@ PROPS["C41"]["functions"] += [
     "deposits, change bucket"]
 PROPS["C41"]["bounds"] += ("; contribute: every contribution, reserve and unit supply <= 10^12 units; one-resource pool: all "
                            "four pool states; two-resource pool: one run per arm, divisibilities (18,18) for the one-sided "
-                           "arms (held), (0,18) [thorough (18,0), (6,2)] for the fairness of the normal and one-sided arms "
+                           "arms (held), (0,18) [thorough also (18,0)] for the fairness of the normal arm "
                            "(KNOWN FINDING, see known_findings.txt), conservation of the contributed amounts (thorough)")
 PROPS["C41"]["outside"] = ("the two-resource pool's new-pool arm (square roots), the fairness of its normal arm at "
                            "divisibility 18 (the solver does not decide the non-linear query within 200 s), the "
